@@ -54,8 +54,11 @@ def coords_of(ev, why):
         rgb = [dy_to_float(x) for x in ev["vals"][0]]
         d["r"], d["g"], d["b"] = rgb
         d["min_rgb"] = min(rgb)
+        d["edge_dist"] = max(0.0, min(min(rgb), 1.0 - max(rgb)))
         try:
             d["hue"] = dy_to_float(ev["vals"][1][0]) % 360.0
+            back = [dy_to_float(x) for x in ev["vals"][2]]
+            d["rt_dev"] = max(abs(x - y) for x, y in zip(rgb, back))
         except Exception:
             pass
     return d
